@@ -11,6 +11,7 @@ let () =
     | "timesync" -> Lvl_timesync.handle dbg
     | "endpoint" -> Lvl_endpoint.handle dbg
     | "session" -> Lvl_session.handle dbg
+    | "synctest" -> Lvl_synctest.handle dbg
     (* LEVELS: one line per level, keep this marker *)
     | _ -> (fun _ -> "badlevel") in
   (try
